@@ -837,7 +837,7 @@ func (P) Generate(g *core.Gen) {
 	}
 	// slice capacity boundary of setTip: a new backing array is made when needed > cap, and cap is
 	// needed + approxNodesPerWeek (1008) at the time of the last allocation
-	for i := 0; i < g.N(6, 60); i++ {
+	for i := 0; i < g.N(4, 60); i++ {
 		t := newTree()
 		t.addSeg(0, 2400)
 		fork := 200 + r.Intn(800)
@@ -875,7 +875,7 @@ func (P) Generate(g *core.Gen) {
 	}
 	genHeadersFirst(g)
 	// independent instances side by side (A.3): 8 tree instances + 2 real chains per line
-	for i := 0; i < g.N(12, 150); i++ {
+	for i := 0; i < g.N(10, 150); i++ {
 		var subs []string
 		for k := 0; k < 8; k++ {
 			t := randTree(r, int(r.Pick(12, 40, 120)))
